@@ -160,11 +160,11 @@ PLAN = {
         'note': COMMON_TRUST + 'The relational lemmas rest on one more axiom about std sorts: a comparison sort sees its elements only through the comparator (proved to be a function of the rank tags), so the arrangement it chooses is a function of the tag sequence.  Equality of the preselected index under the two settings is not a lemma (bounded check smart_quote).',
     },
     'C18': {
-        'bounded': ['emoji_tables', 'phonetic_api', 'update_engine', 'fixed_api'],
+        'bounded': ['emoji_tables', 'phonetic_api', 'update_engine', 'fixed_api'], 'data': ['tables'],
         'level': 'proof',
         'units': ['fixed_session', 'phon', 'rank'],
         'technique': 'Verus: emoticon / emoji-name clauses of the assembled list, with the real zip(1..).map(closure) + extend code verified in place',
-        'claim': 'Proof, for both methods, of the emoticon branch (emoji pushed with rank 1; in phonetic mode the literal text kept unless it is the transliteration itself) and of the emoji-name branch on the REAL code: every emoji the table lists for the word part (English name in phonetic mode, Bengali name in fixed mode) is appended in table order, the k-th with rank k, each wrapped in the same (curled) punctuation as every other candidate, only outside ANSI mode and only if no emoticon matched; the returned list is the (stable / unstable) sort of that assembly, so the non-emoji candidates keep their relative order (C07 / C15 lemmas).',
+        'claim': 'Proof, for both methods, of the emoticon branch (emoji pushed with rank 1; in phonetic mode the literal text kept unless it is the transliteration itself) and of the emoji-name branch on the REAL code: every emoji the table lists for the word part (English name in phonetic mode, Bengali name in fixed mode) is appended in table order, the k-th with rank k, each wrapped in the same (curled) punctuation as every other candidate, only outside ANSI mode and only if no emoticon matched; the returned list is the (stable / unstable) sort of that assembly, so the non-emoji candidates keep their relative order (C07 / C15 lemmas); Rank::cmp is proved to order two emoji by their number, hence (lemma_c18_fixed_order) the emoji of the fixed list are in table order whatever the unstable sort does with ties, each being the k-th table emoji wrapped like the word, and the cut at nine keeps the first ones. Bounded: every Bengali name typed through a generated layout, every English name and emoticon, expected lists read from the emojicon sources independently of the engine look-ups.',
         'note': COMMON_TRUST + 'The two five-line regions are no longer abstracted: the closure body (Rank::emoji_ranked(format!(...), r)) is verified against its ensures; the rewrites are mechanical (D14: the closure is bound to a local and its tuple pattern opened by a let, because Verus cannot quantify over an anonymous closure). Assumed (T3): std contracts for Iterator::zip / map (vstd), Vec::extend over a Map (applies the closure front to back and appends), RangeFrom<u8> yields start, start+1, ...; the emojicon tables themselves (Data look-ups) with the data precondition of fewer than 256 emoji per name.',
     },
     'C19': {
